@@ -40,7 +40,7 @@ func TestMain(m *testing.M) {
 			"scale of a check = largest absolute value among the shape parameters and the coordinates of the sample point(s); every tolerance is 1e-9*scale (Lipschitz: relative 1e-9 plus 1e-12*scale); coordinates stay below ~1e6 and sizes within [1e-4,1e3], no claim about overflow/underflow ranges",
 			"outside means f > 0, inside means f < 0; points whose reference distance is within 1e-9*scale of 0 are not judged for sign",
 			"rounded cone: only |r1-r2| <= (1-1e-4)|b-a| and a != b is generated (the cone is the convex hull of two balls, neither containing the other; outside that precondition Quilez's formula is not claimed)",
-			"capsule: start != end is generated only (with start == end Line3D.ClosestPointOnLine normalises the zero vector and sdf.Line is NaN everywhere; runPrim would judge it as the ball around that point, see regress/C19/candidate-findings/capsule-zero-length.json, which is not executed automatically)",
+			"capsule: start == end is generated as its own class (the ball around that point); rounded cone: a != b (its definitional precondition)",
 			"box and rounded box: `bounds` are FULL extents centred at `position`; `roundness` INFLATES the box (Minkowski sum with a ball: outer extents bounds+2*roundness), unlike Quilez's sdRoundBox which keeps the outer extents",
 			"rounded cylinder: parameters are read as the source (Quilez's sdRoundedCylinder) uses them: axis Y through `pos`, inner cylinder of radius 2*radius-topHeight and half height bodyHeight, inflated by topHeight (outer radius 2*radius, outer half height bodyHeight+topHeight); generated with 2*radius >= topHeight",
 			"plane: unit normal; the surface is {x : (x-position).n = -height} (Quilez: dot(p,n)+h), negative on the side opposite to the normal",
@@ -432,6 +432,9 @@ func genShape(t *rapid.T, lb, kind string, c V3, S float64) Shape {
 	case kCapsule, kCone:
 		l := S * dim(t, lb+".len")
 		b := mad(c, unitDir(t, lb+".axis"), l)
+		if kind == kCapsule && rapid.IntRange(0, 23).Draw(t, lb+".zeroLength") == 0 {
+			b = c // a capsule whose end points coincide is the ball around that point
+		}
 		P = append(P, b[0], b[1], b[2])
 		if kind == kCapsule {
 			P = append(P, S*dim(t, lb+".r"))
@@ -522,11 +525,14 @@ func surfPoint(t *rapid.T, lb string, s Shape, S float64) anchor {
 		}
 		ba := sub(b, a)
 		l := norm(ba)
-		u := scl(ba, 1/l)
+		u, k := V3{1, 0, 0}, 0.0 // zero-length capsule: a ball, any axis serves to spread the sample directions
+		if l > 0 {
+			u = scl(ba, 1/l)
+			k = (r1 - r2) / l // cosine between the axis and the normal of the common tangent cone
+		}
 		e1, e2 := frame(u)
 		th := angle(t, lb+".theta")
 		rad := add(scl(e1, math.Cos(th)), scl(e2, math.Sin(th)))
-		k := (r1 - r2) / l // cosine between the axis and the normal of the common tangent cone
 		switch rapid.IntRange(0, 3).Draw(t, lb+".part") {
 		case 2: // spherical cap around a: directions with dir.u in [-1,k]
 			c := -1 + (k+1)*frac(t, lb+".capA")
@@ -599,7 +605,10 @@ func specialPoint(t *rapid.T, lb string, s Shape, S float64) V3 {
 		return add(s.at(0), q)
 	case kCapsule, kCone:
 		a, b := s.at(0), s.at(3)
-		u := unit(sub(b, a))
+		u := V3{1, 0, 0}
+		if a != b {
+			u = unit(sub(b, a))
+		}
 		e1, e2 := frame(u)
 		th := angle(t, lb+".theta")
 		rad := add(scl(e1, math.Cos(th)), scl(e2, math.Sin(th)))
